@@ -56,6 +56,7 @@ type vzAdv struct {
 	budget        int                                   // adversarial injections in this run
 	lead          uint64                                // how many heights the puppets may run ahead of the node's finalizations
 	chainPH       map[uint64]tmconsensus.ProposedHeader // the proposal that was committed, per height
+	genuineReplay bool                                  // injectReplay sends the genuine header of the node's voting height
 	withheld      []vzWithheld                          // dissenting precommits of decided rounds, sent behind the next proposal
 	abst          [2]map[int]bool                       // puppets that stay silent in this round (split rounds)
 	plan          int                                   // the puppets' outcome for this round: 0 undecided, 1 commit the first proposal, 2 nil quorum, 3 split (no quorum)
@@ -706,7 +707,11 @@ func (a *vzAdv) injectBadProposal() {
 		return n
 	}
 	desc, expect := "", "C05:bad-proposal"
-	switch s.Choose("adv-badph", 8) {
+	which := s.Choose("adv-badph", 8)
+	if w.cfg.oracles["C04"] && s.Pct("adv-badph-predecessor", 40) {
+		which = 3 // the chain-linking check is what this run is about
+	}
+	switch which {
 	case 7: // a valid header whose previous commit proof is a genuine certificate from ANOTHER round, with a nil precommit
 		if ph.Header.Height <= w.cfg.initialHeight {
 			return
@@ -773,13 +778,57 @@ func (a *vzAdv) injectBadProposal() {
 		if ph.Header.Height <= w.cfg.initialHeight {
 			return // the initial height has no predecessor to name
 		}
+		if s.Pct("adv-badph-at-node", 50) {
+			// aim at the node's own position: its voting round or the round after it
+			w.mu.Lock()
+			var pos [4]uint64
+			if n := len(a.nd.disk.nhr); n > 0 {
+				pos = a.nd.disk.nhr[n-1]
+			}
+			w.mu.Unlock()
+			if base, ok := a.chainPH[pos[0]]; ok && pos[0] > w.cfg.initialHeight {
+				ph = base
+				ph.Round = uint32(pos[1])
+			} else if pos[0] == ph.Header.Height {
+				ph.Round = uint32(pos[1])
+			}
+		}
 		ph.Header.PrevBlockHash = []byte("not-the-committed-predecessor-hash..")
+		certified := false
+		if prev, ok := a.chain[ph.Header.Height-1]; ok && a.doubleQuorum && s.Pct("adv-badph-certified", 70) {
+			// The foreign predecessor comes with a certificate of its own: the validators have signed a
+			// second block at the previous height (far outside the fault model; the node's own chain
+			// must stay linked all the same).
+			alt := prev.Header
+			alt.DataID = append([]byte("alt-"), alt.DataID...)
+			w.fx.RecalculateHash(&alt)
+			a.advSigning = true
+			np := tmconsensus.CommitProof{Round: prev.Proof.Round, PubKeyHash: prev.Proof.PubKeyHash, Proofs: map[string][]gcrypto.SparseSignature{}}
+			signers := map[int]bool{}
+			for j := 1; j < w.cfg.nVal; j++ {
+				if id := a.keyID(alt.Height, j); id >= 0 {
+					signers[j] = true
+					a.cast(1, alt.Height, np.Round, string(alt.Hash), j)
+					np.Proofs[string(alt.Hash)] = append(np.Proofs[string(alt.Hash)], gcrypto.SparseSignature{KeyID: vzKeyID(id), Sig: a.signVote(1, alt.Height, np.Round, string(alt.Hash), j)})
+				}
+			}
+			a.advSigning = false
+			if pw, total := a.power(alt.Height, signers); 3*pw > 2*total {
+				if !w.beyondModel && alt.Height >= a.nodeNext() {
+					w.beyondModel = true
+					w.s.Logf("adv: a certificate outside the honest run is sent: beyond the fault model from here on")
+				}
+				ph.Header.PrevBlockHash = alt.Hash
+				ph.Header.PrevCommitProof = np
+				certified = true
+			}
+		}
 		if s.Pct("adv-badph-next-round", 50) {
-			ph.Round++ // lands in the node's next-round view when the node is in the puppets' round
+			ph.Round++ // lands in the next-round view
 		}
 		w.fx.RecalculateHash(&ph.Header)
 		w.fx.SignProposal(context.Background(), &ph, 1)
-		desc, expect = fmt.Sprintf("re-signed proposal for round %d naming a foreign predecessor", ph.Round), "C04:foreign-predecessor-proposal"
+		desc, expect = fmt.Sprintf("re-signed proposal for round %d naming a foreign predecessor (certified: %t)", ph.Round, certified), "C04:foreign-predecessor-proposal"
 	case 4:
 		ph.Signature = append([]byte(nil), ph.Signature...)
 		ph.Signature[3] ^= 0x10
@@ -858,6 +907,17 @@ func (a *vzAdv) injectReplay() {
 	}
 	sort.Slice(hs, func(i, j int) bool { return hs[i] < hs[j] })
 	h := hs[s.Choose("replay-h", len(hs))]
+	if a.genuineReplay {
+		// catch-up traffic of the honest script: the header the node is voting on
+		w.mu.Lock()
+		if n := len(a.nd.disk.nhr); n > 0 {
+			h = a.nd.disk.nhr[n-1][0]
+		}
+		w.mu.Unlock()
+		if _, ok := a.chain[h]; !ok {
+			return
+		}
+	}
 	ch := a.chain[h]
 	// Known finding (C09): a replayed header of the voting height whose commit round is below the
 	// mirror's voting round panics the kernel ("TODO: handle replay for earlier round").
@@ -879,6 +939,9 @@ func (a *vzAdv) injectReplay() {
 		proof.Proofs[k] = append([]gcrypto.SparseSignature(nil), v...)
 	}
 	kind := s.Choose("replay-kind", 7)
+	if a.genuineReplay {
+		kind = 0
+	}
 	desc, expect := "genuine committed header", "valid-replay"
 	switch kind {
 	case 6: // genuine header, validator list and hashes; only the redundant PubKeys slice names foreign keys, which sign the certificate
@@ -1130,6 +1193,14 @@ func (a *vzAdv) actions() []vsimcore.Action {
 		if a.plan == 0 || a.canVote() || len(a.cands(0))+len(a.cands(1)) == 0 {
 			acts = append(acts, vsimcore.Action{Name: "adv: honest vote", Weight: 10, Do: func() { a.honestVote() }})
 		}
+	}
+	if a.crashEnum && next < a.h && a.replayCh != nil && w.s.Faults["replayed_header"] < 12 {
+		// the honest script of a crash run includes catch-up through genuine replayed headers
+		acts = append(acts, vsimcore.Action{Name: "adv: genuine replayed header", Weight: 2, Do: func() {
+			a.genuineReplay = true
+			a.injectReplay()
+			a.genuineReplay = false
+		}})
 	}
 	if w.cfg.rEquivocate > 0 && a.injected() < a.budget { // adversarial traffic enabled in this run
 		acts = append(acts, vsimcore.Action{Name: "adv: bad vote", Weight: 3, Do: a.injectBadVote})
